@@ -53,7 +53,7 @@ type cVar struct {
 	Meth  string `json:"meth"` // request method (GET / HEAD / POST): a HEAD response forwards no body but is "written" all the same
 	RH    bool   `json:"rh"`   // a custom ReturnHandler is mapped in the injector: it replaces the default table
 	Der   bool   `json:"der"`  // "C" installs a derived request context first and cancels that one
-	WK    int    `json:"wk"`   // how "W" touches the response: 0 always WriteHeader(200+h); else per handler WriteHeader / Write(bytes) / Write(nil) / Flush()
+	WK    int    `json:"wk"`   // how "W" touches the response: 0 always WriteHeader(200+h); else per handler WriteHeader / Write(bytes) / Write(nil) / Flush() / io.Copy
 	DL    bool   `json:"dl"`   // ... and that derived context ends by an expired deadline (the timeout-middleware case) rather than by cancel()
 }
 
@@ -93,6 +93,13 @@ func (s *chainSpy) Write(b []byte) (int, error) {
 		s.chunks = append(s.chunks, encBytes(string(b)))
 	}
 	return len(b), nil
+}
+
+// ReadFrom makes the spy an io.ReaderFrom like the response writer of a net/http server connection.
+func (s *chainSpy) ReadFrom(r io.Reader) (int64, error) {
+	b, err := io.ReadAll(r)
+	n, _ := s.Write(b)
+	return int64(n), err
 }
 
 type chainExec struct {
@@ -153,7 +160,7 @@ func (x *chainExec) body(h int, c flamego.Context) {
 			// the ways a handler can start the response: explicit status, body bytes, an empty body write, a flush
 			wk := 0
 			if x.v.WK > 0 {
-				wk = (x.v.WK + h) % 4
+				wk = (x.v.WK + h) % 5
 			}
 			switch wk {
 			case 0:
@@ -166,6 +173,12 @@ func (x *chainExec) body(h int, c flamego.Context) {
 			case 2:
 				_, _ = c.ResponseWriter().Write(nil)
 				x.ev(map[string]interface{}{"e": "write", "h": h, "code": 200, "b": ""})
+			case 4:
+				// streamed with io.Copy from a source without WriteTo: Copy looks for ReadFrom on the destination
+				// (the underlying writer of this harness has one, as the writer of a real server connection does)
+				b := fmt.Sprintf("c%d", h)
+				_, _ = io.Copy(c.ResponseWriter(), io.LimitReader(strings.NewReader(b), 64))
+				x.ev(map[string]interface{}{"e": "write", "h": h, "code": 200, "b": b})
 			default:
 				c.ResponseWriter().Flush()
 				x.ev(map[string]interface{}{"e": "write", "h": h, "code": 200, "b": ""})
@@ -199,6 +212,9 @@ func (x *chainExec) body(h int, c flamego.Context) {
 			if x.v.PK == "runtime" {
 				var m map[string]int
 				m["x"] = 1
+			}
+			if x.v.PK == "deepnosrc" {
+				deepPanic(150, x.panicVal())
 			}
 			panic(x.panicVal())
 		}
@@ -413,10 +429,10 @@ func chainVarFor(c *chainCase, idx int) cVar {
 	rng := rand.New(rand.NewSource(int64(idx)*7919 + int64(envInt("VERIF_SEED", 1))))
 	n := c.N
 	v := cVar{Env: []string{"development", "production", "test"}[rng.Intn(3)],
-		PK: []string{"string", "error", "runtime", "struct", "abort"}[rng.Intn(5)], Fast: rng.Intn(3), Reqs: 1 + rng.Intn(2)}
+		PK: []string{"string", "error", "runtime", "struct", "abort", "deepnosrc"}[rng.Intn(6)], Fast: rng.Intn(3), Reqs: 1 + rng.Intn(2)}
 	v.Der = rng.Intn(2) == 0
 	v.DL = v.Der && rng.Intn(2) == 0
-	v.WK = rng.Intn(5)
+	v.WK = rng.Intn(6)
 	v.RH = rng.Intn(5) == 0
 	v.Meth = []string{"GET", "GET", "HEAD", "POST"}[rng.Intn(4)]
 	v.HS = rng.Intn(3) == 0
@@ -549,7 +565,9 @@ func chainReplay(raw json.RawMessage, idx int, tr *traceWriter) {
 			path = "/nowhere"
 		}
 		req := (&http.Request{Method: meth, URL: &url.URL{Path: path}, Header: http.Header{}, Proto: "HTTP/1.1", ProtoMajor: 1, ProtoMinor: 1, Host: "x"}).WithContext(ctx)
-		func() {
+		done := make(chan struct{})
+		go func() {
+			defer close(done)
 			defer func() {
 				if r := recover(); r != nil {
 					x.ensurePanicLogged()
@@ -558,6 +576,14 @@ func chainReplay(raw json.RawMessage, idx int, tr *traceWriter) {
 			}()
 			f.ServeHTTP(spy, req)
 		}()
+		select {
+		case <-done:
+		case <-time.After(time.Duration(envInt("VERIF_HANG_SECONDS", 8)) * time.Second):
+			// ServeHTTP does not return: record it and stop the harness (the goroutine cannot be killed); the cases
+			// after this one are not run - the verdict on this one stands on its own
+			x.ev(map[string]interface{}{"e": "hang"})
+			tr.flushAndExit()
+		}
 		cancel()
 		chunks := spy.chunks
 		if chunks == nil {
